@@ -137,7 +137,59 @@ theorem doc_one_per_path_method (es : List (Endpoint V)) (t : Node V)
   exact C02.accepted_unambiguous_partial es t hr h hK e1.method (C02.witnessPath e1.path) v e1 e2
     ⟨he1, rfl, hm1, hv1⟩ ⟨he2, hm.symm, by rw [← hp]; exact hm1, hv2⟩
 
+/-! ### The document's tag list
+
+`gen_openapi` also emits a top-level list of tags: the configured ones plus
+every tag found on an endpoint it iterates at version `v` (collected into a
+set, then sorted by name).  `tagsOf` is the endpoints' tag assignment.  After
+the repair (commit "fix: tags used only by unpublished endpoints …") only the
+published endpoints contribute; `docEndpointTagsAsIs` is the code before it. -/
+
+/-- Tags contributed by endpoints to the document for `v` (before de-duplication and sorting). -/
+def docEndpointTags {V : Type} [LE V] [LT V] [DecidableLE V] [DecidableLT V] [DecidableEq V]
+    (tagsOf : Endpoint V → List String) (configured : List String) (t : Node V) (v : V) : List String :=
+  ((docOps t v).flatMap fun x => tagsOf x.2.2).filter fun g => !configured.contains g
+
+def docEndpointTagsAsIs {V : Type} [LE V] [LT V] [DecidableLE V] [DecidableLT V] [DecidableEq V]
+    (tagsOf : Endpoint V → List String) (configured : List String) (t : Node V) (v : V) : List String :=
+  ((t.iter (some v)).flatMap fun x => tagsOf x.2.2).filter fun g => !configured.contains g
+
+/-- **C06, the tag list is exact.**  A (non-configured) tag is listed in the document for `v`
+iff it is written on a published endpoint whose range contains `v` - i.e. on an operation the
+document shows; nothing is listed on behalf of unpublished endpoints or of other versions. -/
+theorem doc_tags_exact (es : List (Endpoint V)) (t : Node V)
+    (hr : ∀ e ∈ es, Range.WF e.versions) (h : insertAll Node.empty es = .ok t) (v : V)
+    (tagsOf : Endpoint V → List String) (configured : List String) (g : String) :
+    g ∈ docEndpointTags tagsOf configured t v ↔
+      g ∉ configured ∧ ∃ e ∈ es, e.visible = true ∧ Range.Mem v e.versions ∧ g ∈ tagsOf e := by
+  simp only [docEndpointTags, List.mem_filter, List.mem_flatMap, Bool.not_eq_true',
+    List.contains_eq_mem, decide_eq_false_iff_not]
+  constructor
+  · rintro ⟨⟨x, hx, hg⟩, hc⟩
+    obtain ⟨e, he, hvis, hv, rfl⟩ := (doc_exact es t hr h v x).1 hx
+    exact ⟨hc, e, he, hvis, hv, hg⟩
+  · rintro ⟨hc, e, he, hvis, hv, hg⟩
+    exact ⟨⟨_, (doc_exact es t hr h v _).2 ⟨e, he, hvis, hv, rfl⟩, hg⟩, hc⟩
+
+/-- The tag list, like the operation list, does not depend on the registration order. -/
+theorem doc_tags_order_independent (es es' : List (Endpoint V)) (t t' : Node V)
+    (hperm : ∀ x, x ∈ es ↔ x ∈ es') (hr : ∀ e ∈ es, Range.WF e.versions)
+    (h : insertAll Node.empty es = .ok t) (h' : insertAll Node.empty es' = .ok t') (v : V)
+    (tagsOf : Endpoint V → List String) (configured : List String) :
+    docEndpointTags tagsOf configured t v = docEndpointTags tagsOf configured t' v := by
+  simp only [docEndpointTags, doc_list_order_independent es es' t t' hperm hr h h' v]
+
 /-! ### Non-vacuity -/
+
+/-- Regression witness for the repaired defect: before the repair the tag of an unpublished
+endpoint (`hidden`, on the unpublished `GET /h`) was listed although no operation carries it. -/
+theorem tags_asIs_leaks_unpublished :
+    let es : List (Endpoint Nat) :=
+      [⟨0, "GET", [.lit "h"], .all, false⟩, ⟨1, "GET", [.lit "p"], .all, true⟩]
+    let tagsOf : Endpoint Nat → List String := fun e => if e.id = 0 then ["hidden"] else ["pub"]
+    docEndpointTagsAsIs tagsOf [] (C01.tableOf es) 1 = ["hidden", "pub"] ∧
+      docEndpointTags tagsOf [] (C01.tableOf es) 1 = ["pub"] := by
+  decide
 
 example : (docOps (C01.tableOf C01.sampleTable) 1).map (fun x => (x.1, x.2.1, x.2.2.id)) =
     [("/", "DELETE", 4), ("/a/{x}", "GET", 0), ("/a/{x}/b/{y}", "PUT", 2), ("/f/{rest}", "GET", 3)] := by
